@@ -267,7 +267,7 @@ def run(tier, seed, workers=None):
         rule='every subset (<=4 quick, <=5 thorough) of a 15-branch universe '
              '(development x.y / x over majors 4,5,10, one or two '
              'stabilizations per line, hotfix branches) x every set of <=2 '
-             '(<=3) tags from 10 released / suffixed / v-prefixed / x.y.z.n '
+             '(<=3) tags from 11 released / suffixed / v-prefixed / x.y.z.n '
              'forms x every branch as destination through build(); plus every '
              'discovery order (all permutations) through add_branch; '
              'non-trivial = accepted cascade with more than one target',
